@@ -87,7 +87,7 @@ func c11R1(c *Ctx) {
 			c.verdict(okc, rule, key, c.instrPos(s.in), d, d)
 			continue
 		}
-		reason, ok := c11PanicTable[c.fnName(s.fn)+"|"+s.msg]
+		reason, ok := c.tabledS(c11PanicTable, s.fn, "|"+s.msg)
 		if !ok {
 			c.bad(rule, key, c.instrPos(s.in), fmt.Sprintf("panic(%q) is reachable while parsing/preparing a workflow and is not a tabled invariant: malformed files must yield an error", s.msg))
 			continue
@@ -118,6 +118,9 @@ func c11R1(c *Ctx) {
 				key = fmt.Sprintf("%s#%d", key, seenKey[key])
 			}
 			reason, ok := c11AssertTable[tk]
+			if !ok {
+				reason, ok = c.tabledS(c11AssertTable, fn, "|"+shortType(ta.AssertedType)+"|"+origin)
+			}
 			if !ok {
 				c.bad(rule, key, c.instrPos(ta), fmt.Sprintf("unchecked assertion .(%s) on %s while parsing/preparing is not justified by a dominating validation: file contents of another shape crash the parser", shortType(ta.AssertedType), origin))
 				return
@@ -193,7 +196,7 @@ func (c *Ctx) checkMapTypeGuard(target *ssa.Function) (bool, string) {
 						return false
 					}
 					call, ok := b.X.(*ssa.Call)
-					return ok && call.Common().IsInvoke() && call.Common().Method.Name() == "Type" && call.Common().Value == recv
+					return ok && call.Common().IsInvoke() && call.Common().Method.Name() == "Type" && sameVal(call.Common().Value, recv)
 				}
 			}
 			if guardedBy(r.I, true, isTypeTest(token.EQL)) == nil && guardedBy(r.I, false, isTypeTest(token.NEQ)) == nil {
@@ -371,7 +374,7 @@ func (c *Ctx) checkScalarKeys() (bool, string) {
 	}
 	// an error return guarded by a test `Kind != ScalarNode(8)` of a content node, dominated by the MappingNode(4) case
 	found := false
-	eachInstr(fn, func(r instrRef) {
+	c.eachInstrLogical(fn, func(r instrRef) {
 		ifi, ok := r.I.(*ssa.If)
 		if !ok {
 			return
@@ -394,7 +397,7 @@ func (c *Ctx) checkScalarKeys() (bool, string) {
 		for _, in := range tb.Instrs {
 			if ret, ok := in.(*ssa.Return); ok {
 				res := retResults(ret)
-				if len(res) == 2 && !isNilConst(res[1]) {
+				if len(res) >= 1 && res[len(res)-1].Type().String() == "error" && !isNilConst(res[len(res)-1]) {
 					returnsErr = true
 				}
 			}
@@ -408,7 +411,7 @@ func (c *Ctx) checkScalarKeys() (bool, string) {
 			n2, isC2 := constInt(b2.Y)
 			return isC2 && n2 == 4
 		}) != nil
-		if returnsErr && mapCase && c.scalarCheckCoversAllKeys(fn, r.Block, b.X) {
+		if returnsErr && mapCase && c.scalarCheckCoversAllKeys(r.Block.Parent(), r.Block, b.X) && c.errorReachesCaller(ifi, fn) {
 			found = true
 		}
 	})
@@ -859,7 +862,7 @@ func c11R3(c *Ctx) {
 			continue
 		}
 		found := false
-		eachInstr(fn, func(r instrRef) {
+		c.eachInstrLogical(fn, func(r instrRef) {
 			call, ok := r.I.(*ssa.Call)
 			if !ok {
 				return
@@ -872,6 +875,16 @@ func c11R3(c *Ctx) {
 			n++
 			key := fmt.Sprintf("error-propagated:%s:%s", c.fnName(fn), s.callee)
 			okc, p := c.errorPropagated(call)
+			// the call may live in a helper extracted from fn: the helper's error must reach fn's caller as well
+			for cur := call.Parent(); okc && cur != fn; {
+				up, isCall := ownerSite[cur].(*ssa.Call)
+				if !isCall {
+					okc = false
+					break
+				}
+				okc, p = c.errorPropagated(up)
+				cur = up.Parent()
+			}
 			c.verdict(okc, rule, key, c.instrPos(call), "the error reaches the caller", "the error of "+s.callee+" can be dropped: a missing or unreadable file is not reported", p...)
 		})
 		if !found {
@@ -886,7 +899,7 @@ func c11R3(c *Ctx) {
 			if !ok || !l.CommaOk {
 				return
 			}
-			if p, isP := l.X.(*ssa.Parameter); !isP || p.Name() != "workflowContext" {
+			if p, isP := l.X.(*ssa.Parameter); !isP || p.Type().String() != "map[string][]byte" {
 				return
 			}
 			n++
@@ -969,6 +982,19 @@ func (c *Ctx) errorPropagated(call *ssa.Call) (bool, []string) {
 	}
 	find(errV, 0)
 	if errBlock == nil {
+		// `return f(...)`: the error is handed to the caller as it is
+		direct := 0
+		eachInstr(call.Parent(), func(r instrRef) {
+			if ret, ok := r.I.(*ssa.Return); ok {
+				res := retResults(ret) // sees through results spilled for deferred calls
+				if len(res) > 0 && res[len(res)-1] == errV {
+					direct++
+				}
+			}
+		})
+		if direct > 0 {
+			return true, nil
+		}
 		return false, []string{"the error result is never tested"}
 	}
 	p := c.findPathFrom(errBlock, 0, func(in ssa.Instruction) bool {
@@ -1360,4 +1386,46 @@ func selfPointerField(fa *ssa.FieldAddr) bool {
 		owner = p.Elem()
 	}
 	return types.Identical(ft.Elem(), owner)
+}
+
+// errorReachesCaller: the error returned on the true edge of `ifi` (possibly inside a helper owned by top) makes top
+// return an error too: at every level the helper's call is followed by a test of its error result that returns it.
+func (c *Ctx) errorReachesCaller(ifi *ssa.If, top *ssa.Function) bool {
+	fn := ifi.Parent()
+	for i := 0; i < 6 && fn != top; i++ {
+		site := ownerSite[fn]
+		if site == nil {
+			return false
+		}
+		call, ok := site.(*ssa.Call)
+		if !ok {
+			return false
+		}
+		// the call's error result is tested and the error edge returns a non-nil error
+		okProp := false
+		caller := call.Parent()
+		eachInstr(caller, func(r instrRef) {
+			i2, ok := r.I.(*ssa.If)
+			if !ok {
+				return
+			}
+			b, ok := i2.Cond.(*ssa.BinOp)
+			if !ok || b.Op != token.NEQ || !isNilConst(b.Y) || !derivesFrom(b.X, isValue(call)) {
+				return
+			}
+			for _, in := range i2.Block().Succs[0].Instrs {
+				if ret, ok := in.(*ssa.Return); ok {
+					res := retResults(ret)
+					if len(res) > 0 && !isNilConst(res[len(res)-1]) {
+						okProp = true
+					}
+				}
+			}
+		})
+		if !okProp {
+			return false
+		}
+		fn = caller
+	}
+	return fn == top
 }
